@@ -364,7 +364,7 @@ func runPrims(c *hlib.Ctx) {
 			if id < 0 || id >= k || !founds[id] || scales[id] != rc.Scale {
 				c.PropFail("BVHToObject/material", fmt.Sprintf("returned material %d does not belong to a part with the returned scale", id))
 			}
-			return fmt.Sprintf("hit %s", hlib.Hex(rc.Scale))
+			return fmt.Sprintf("hit %s", hlib.Hex(rc.Scale+0)) // x+0 turns -0 into +0: equal parameters may come from different parts
 		})
 		c.Emit("c20 bvhf "+sb.String(), bvh)
 	}
@@ -403,10 +403,27 @@ func runPrims(c *hlib.Ctx) {
 		}
 		ray := randRayAt(c, direct.a)
 		drc, _, dok := direct.object(0).Cast(ray)
+		if wrc, _, wok := wrapped.Cast(ray); (dok && drc.Scale == 0) || (wok && wrc.Scale == 0) {
+			// the ray starts on the surface: hit/miss and the sign of zero are tie-breaks, not geometry
+			c.Stat("xprim.skipped-origin-on-surface", 1)
+			continue
+		}
+		onEdge := false
+		if dok && direct.kind == 1 {
+			hp := ray.Origin.Add(ray.Direction.Scale(drc.Scale)).Array()
+			lo, hi := direct.a.Array(), direct.b.Array()
+			n := 0
+			for i := 0; i < 3; i++ {
+				if math.Abs(hp[i]-lo[i]) < 1e-9 || math.Abs(hp[i]-hi[i]) < 1e-9 {
+					n++
+				}
+			}
+			onEdge = n >= 2 // on an edge or corner of the box the face (hence the normal) is a tie-break
+		}
 		want := "miss"
 		if dok {
 			want = "hit " + hlib.Hex(drc.Scale)
-			if how == 0 && p.kind == 1 {
+			if how == 0 && p.kind == 1 && !onEdge {
 				want += " " + hex3(drc.Normal)
 			}
 			c.Stat("xprim.hit", 1)
@@ -416,10 +433,10 @@ func runPrims(c *hlib.Ctx) {
 			if !ok {
 				return "miss"
 			}
-			if how == 0 && p.kind == 1 {
+			if how == 0 && p.kind == 1 && !onEdge {
 				return "hit " + hlib.Hex(rc.Scale) + " " + hex3(rc.Normal)
 			}
-			if dok && !(p.kind == 2 && how == 2) && rc.Normal.Dot(drc.Normal) < 0.999999 {
+			if dok && !onEdge && !(p.kind == 2 && how == 2) && rc.Normal.Dot(drc.Normal) < 0.999999 {
 				c.PropFail("matrixObject/normal", fmt.Sprintf("normal %v of the wrapped object differs from normal %v of the transformed original (how=%d)", rc.Normal, drc.Normal, how))
 			}
 			return "hit " + hlib.Hex(rc.Scale)
